@@ -148,6 +148,10 @@ def pick(rng, names):
         return sibling_bindings(rng)
     if n == "dotted-keys":
         return dotted_keys(rng)
+    if n == "signal-loop":
+        # a loop of at least three turns whose gate (or an observer) waits for the end-of-iteration signal
+        t = rng.choice([loops.signal_loop(rng.randint(3, 5), 0, rng.choice(["counter", "chat"]), True, observers=rng.choice([0, 1])), loops.early_read_signal_loop(rng.randint(3, 5), 0, rng.choice(["route", "ifelse"])), loops.lagged_signal_loop(rng.randint(4, 7), 0, rng.choice(["route", "ifelse"]))])
+        return {"family": "loop", "spec": t["spec"], "inputs": t["inputs"], "kw": {}, "unique_outputs": outputs_unique(t["spec"]), "ref": t["ref"], "template": t["template"]}
     if n == "nested-entry":
         return nested_entry(rng)
     if n == "rewait":
